@@ -167,6 +167,19 @@ pub fn search_c18(r: &mut Report, tier: &str) {
             if r.failures > 0 { return; }
         } } } }
     }
+    // "the replica's own full clock empties it": a clock covering every dot the state mentions (pending removes included) leaves
+    // nothing behind -- no element, no clock entry, no pending remove
+    let top = clock_of(&[99, 99, 99, 99]);
+    for (o, d) in sts.iter() {
+        let mut t = o.clone(); t.reset_remove(&top);
+        r.case("orswot.reset_remove_everything", t == O::new(), &|| format!("[{}] reset_remove(top)", d), &|| format!("left over: {:?}", t));
+        if r.failures > 0 { return; }
+    }
+    for (m, d) in crate::c05::map_states(if tier == "thorough" { 5 } else { 4 }) {
+        let mut t = m.clone(); t.reset_remove(&top);
+        r.case("map.reset_remove_everything", t == crdts::Map::new(), &|| format!("[{}] reset_remove(top)", d), &|| format!("left over: {:?}", t));
+        if r.failures > 0 { return; }
+    }
     for (m, d) in crate::c05::map_states(if tier == "thorough" { 5 } else { 4 }) {
         for c1 in 0..3u64 { for c2 in 0..3u64 { for e1 in 0..3u64 { for e2 in 0..3u64 {
             let (ca, cb) = (clock_of(&[c1, c2]), clock_of(&[e1, e2]));
